@@ -229,6 +229,8 @@ def routes(sym, kind, combo, acc, tmp):
             ok = False
         acc.eval(case, nontrivial=False, outcome='refused', state=(sym, kind, tuple(combo)))
         return
+    if ref_name not in docs:
+        ref_name = sorted(docs)[0]
     ref = mask_ts(docs[ref_name])
     for name, b in docs.items():
         if mask_ts(b) != ref:
